@@ -43,7 +43,7 @@ PAIRWISE = ("distanceInv", "distancePairs", "selfCoordNum")
 SINGLE_GROUP = ("gyration", "inertia", "inertiaZ", "dipoleMagnitude", "rmsd", "eigenvector", "cartesian") + ROT_TYPES
 VTYPE = {"distanceVec": "vec3", "distanceDir": "unit3", "orientation": "quat", "cartesian": "vector",
          "distancePairs": "vector"}
-NOT_IN_CORPUS = ["gspath", "gzpath", "aspath", "azpath", "linearCombination", "gspathCV",
+NOT_IN_CORPUS = ["linearCombination", "gspathCV",
                  "gzpathCV", "aspathCV", "azpathCV", "neuralNetwork", "alchLambda", "alchFLambda", "mapTotal",
                  "customColvar", "torchANN"]
 
@@ -53,6 +53,7 @@ NOT_IN_CORPUS = ["gspath", "gzpath", "aspath", "azpath", "linearCombination", "g
 # ---------------------------------------------------------------------------------------------
 
 from monitors import c02_files
+from monitors import c02_paths
 
 
 def option_sets():
@@ -892,12 +893,13 @@ def run(tier, replay):
 
     c.use_flavour("plain")
     c02_files.run_files(c, tier)
+    c02_paths.run_paths(c, tier)
 
     c.extra["worst_rel_dev"] = {k: {"relative_deviation": v[0], "fraction_of_tolerance": v[1]} for k, v in tl.worst.items()}
     c.extra["conclusive_kinds_by_component_type"] = {k: sorted(v) for k, v in sorted(tl.by_type.items())}
     l2 = sorted(c.extra.get("types_L2", []))
     l1 = sorted(c.extra.get("types_L1", []))
-    allc = list(corpus.COMPONENTS) + list(corpus.EXTRA_COMPONENTS)
+    allc = list(corpus.COMPONENTS) + list(corpus.EXTRA_COMPONENTS) + list(c02_paths.KINDS)
     c.extra["coverage_L2_and_L1"] = sorted(set(l2) & set(l1))
     c.extra["coverage_L2_only"] = sorted(set(l2) - set(l1))
     c.extra["coverage_L1_only"] = sorted(set(l1) - set(l2))
